@@ -23,31 +23,32 @@ OFFM = [0, 1, 7, 8, 56, 63]
 SIZES = [0, 1, 7, 8, 63, 64, 65, 127, 128, 129, 200]
 WORK = V.BUILD / "c18"
 
-# Confirmed deviations of the unchanged tree from the array-of-bits reading (formatting / literal
-# parsing only; see Properties_C18.v `..._refuted`).  They are probed on the real library on every
-# run; reported as KNOWN-FINDING when KNOWN_FINDINGS.txt has a matching `known:` line (matched on
-# `key`), otherwise recorded in the evidence and printed as NOTE.  Any OTHER oracle mismatch is a violation.
+# Deviations of the real library from the array-of-bits reading that were confirmed while this check
+# was built.  Each is probed on the real library on every run:
+#   * still present and KNOWN_FINDINGS.txt has a `known:` line containing `key`  -> KNOWN-FINDING
+#   * still present (or back again) without such a line                           -> VIOLATION with the concrete input
+#   * fixed in /repo (`fixed:` lines) and absent                                  -> nothing, the probe is a regression guard
+# Any other oracle mismatch is a violation.
 FINDINGS = {
-    "fmt16": dict(
-        key="formatState",
-        text=("formatState(base 16) prints a nibble value 10..15 with `s << v` on a decimal stream, "
-              "i.e. as two decimal digits: 16-bit 0x00AB and 0x1011 both format as \"1011\" "
-              "(Node_Constant::attemptInferOutputName uses it)"),
-        probe=["S probe 2 1", "resize 0 16", "setrange 0 1 0 16 1", "insw 0 0 0 16 ab", "fmt 0 16 1",
-               "insw 0 0 0 16 1011", "fmt 0 16 1", "E"]),
     "octal22": dict(
         key="octal",
         text=("parseBitVector rejects valid octal literals with 22 or more digits: "
               "parseBitVector(\"o0000000000000000000000\") throws the HCL_ASSERT of insertNonStraddling "
-              "(BitVectorState.h:925) because octal digit 21 occupies bits 63..65; 21 digits parse"),
+              "(BitVectorState.h) because octal digit 21 occupies bits 63..65; 21 digits parse "
+              "(Coq: C18_parse_octal_22_digits_refuted)"),
         probe=["S probe 2 1", "parse 0 o0000000000000000000000", "resize 0 1", "parse 0 o000000000000000000000", "E"]),
     "random_then_resize_exposes_stale_bits": dict(
         key="createRandom",
-        text=("createRandomDefaultBitVectorState / createDefinedRandomDefaultBitVectorState fill whole 64-bit words, "
-              "leaving random bits above size() in the last word; a later resize() to a larger size exposes them instead of "
-              "zeros: two states that compare equal (size 10) differ after both are resize(30)d "
-              "(Coq: C18_resize_exposes_stale_tail_refuted; only tests use these helpers)"),
+        text=("createRandomDefaultBitVectorState(10) leaves random bits above size() in the last word: a copy that "
+              "compares equal differs after both are resize(30)d (regression of /repo 25f5b7d; "
+              "harness: build/harness/C18_bvs probe)"),
         probe=None),
+    "fmt16_decimal_digits": dict(
+        key="formatState",
+        text=("formatState(base 16) does not print one hex digit per nibble: 16-bit 0x00AB must print \"AB\"/\"00AB\" "
+              "and 0x1011 \"1011\" (regression of /repo fff2228)"),
+        probe=["S probe 2 1", "resize 0 16", "setrange 0 1 0 16 1", "insw 0 0 0 16 ab", "fmt 0 16 1", "fmt 0 16 0",
+               "insw 0 0 0 16 1011", "fmt 0 16 1", "E"]),
 }
 
 
@@ -508,6 +509,46 @@ def run_to_file(cmd, outpath, timeout):
             return 124, "timeout"
 
 
+def run_model_parallel(model, opsfile, outpath, timeout, jobs):
+    """evaluate the extracted model on contiguous chunks of the operation file (cut at sequence
+    boundaries) in parallel; the concatenated output equals a single run.  Returns (rc, stderr)."""
+    lines = open(opsfile).read().split("\n")
+    starts = [i for i, l in enumerate(lines) if l.startswith("S ")]
+    cuts = [0]
+    for k in range(1, jobs):
+        target = k * len(lines) // jobs
+        c = next((i for i in starts if i >= target), None)
+        if c is not None and c > cuts[-1]:
+            cuts.append(c)
+    cuts.append(len(lines))
+    procs = []
+    for k in range(len(cuts) - 1):
+        part = Path(str(outpath) + f".in{k}")
+        part.write_text("\n".join(lines[cuts[k]:cuts[k + 1]]) + "\n")
+        fo = open(str(outpath) + f".out{k}", "w")
+        procs.append((subprocess.Popen([model, str(part)], stdout=fo, stderr=subprocess.PIPE, text=True), fo, part))
+    rc, err = 0, ""
+    t_end = time.time() + timeout
+    for pr, fo, part in procs:
+        try:
+            _, e = pr.communicate(timeout=max(1, t_end - time.time()))
+        except subprocess.TimeoutExpired:
+            pr.kill()
+            _, e = pr.communicate()
+            rc = 124
+        fo.close()
+        err += e or ""
+        rc = rc or pr.returncode
+    with open(outpath, "w") as out:
+        for k in range(len(procs)):
+            with open(str(outpath) + f".out{k}") as f:
+                for l in f:
+                    out.write(l)
+            os.remove(str(outpath) + f".out{k}")
+            os.remove(str(outpath) + f".in{k}")
+    return rc, err
+
+
 def first_diffs(fa, fb, limit=5):
     """streaming line diff; returns (n_lines_compared, [ (lineno, a, b) ... ])"""
     diffs, n = [], 0
@@ -554,23 +595,24 @@ def oracle_run(exe, lines, tag, timeout=600):
 
 
 def finding_of(m):
-    """classify an oracle mismatch as one of the confirmed text-level findings, else None"""
+    """classify an oracle mismatch as a confirmed finding that may be covered by a `known:` line, else None"""
     t = m["op"].split()
-    if t[0] == "fmt" and t[2] == "16" and m["what"] == "result":
-        exp = m["expected"].strip('"')
-        dec = "".join(str(int(c, 16)) if c != "X" else "X" for c in exp)
-        if dec == m["observed"].strip('"'):
-            return "fmt16"
     if t[0] == "parse" and len(t) == 3 and re.match(r"^\d*o[0-7xX]{22,}$", t[2]):
         if m["what"] == "result" and m["expected"] == "1" and m["observed"] == "0":
             return "octal22"
         if m["what"] == "contents-after":
             return "octal22"      # the oracle register holds the parsed value, the real one is unchanged
+    if t[0] == "fmt" and t[2] == "16" and m["what"] == "result" and t[1] == "0" and m["seq"] == "probe":
+        return "fmt16_decimal_digits"
     return None
 
 
+KNOWN_KEYS = set()    # finding ids covered by a `known:` line of KNOWN_FINDINGS.txt (filled in main)
+
+
 def is_fmt16_finding(m):
-    return finding_of(m) is not None
+    """True if the mismatch is a known finding and therefore must not be reported as a violation"""
+    return finding_of(m) in KNOWN_KEYS
 
 
 def seq_valid(lines):
@@ -712,6 +754,10 @@ def main():
     rep = V.Report(CID)
     rep.t0 = t0
     rep.add_proof(res)
+    known, fixed = V.known_findings(CID)
+    for fid, fd in FINDINGS.items():
+        if any(fd["key"] in k for k in known):
+            KNOWN_KEYS.add(fid)
     WORK.mkdir(parents=True, exist_ok=True)
     forb = V.scan_forbidden()
     if forb:
@@ -772,7 +818,7 @@ def main():
                     d = dict(seq=m.group(1), index=int(m.group(2)), op=m.group(3), what=m.group(4),
                              expected=m.group(5), observed=m.group(6))
                     f = finding_of(d)
-                    if f:
+                    if f in KNOWN_KEYS:
                         oracle_classified[f] += 1
                     elif len(oracle_mm) < 20:
                         oracle_mm.append(d)
@@ -788,7 +834,7 @@ def main():
     if model is None:
         tie_broken = "extracted model no longer builds: " + V.last_model_log[-500:]
     else:
-        rc2, err2 = run_to_file([model, str(opsfile)], out_ml, tmo)
+        rc2, err2 = run_model_parallel(model, opsfile, out_ml, tmo, min(V.NCPU, 16) if tier == "thorough" else min(V.NCPU, 4))
         t3 = time.time()
         rep.cov["time_s"] = dict(harness=round(t2 - t1, 1), model=round(t3 - t2, 1))
         if rc2 != 0:
@@ -804,7 +850,7 @@ def main():
         if diffs:
             tie_broken = f"{len(diffs)}+ result lines differ between the real container and the Coq model"
     rep.cov["oracle_in_harness"] = dict(unexplained_mismatches=len(oracle_mm),
-                                        mismatches_classified_as_confirmed_findings=dict(oracle_classified))
+                                        mismatches_covered_by_known_findings=dict(oracle_classified))
     if oracle_mm and not tie_broken:
         tie_broken = f"the real container disagrees with the bit-array oracle of the harness ({len(oracle_mm)}+ operations)"
     if rc1 != 0 and not tie_broken:
@@ -843,24 +889,24 @@ def main():
         tie_broken = (tie_broken or "") + " harness compiled with __BMI__: the modelled generic templates are not the compiled ones"
 
     # ---- confirmed findings: probe them on the real library every run ----
-    known, fixed = V.known_findings(CID)
     _, probe_out = V.run([exe, "probe"])
     for fid, fd in FINDINGS.items():
         if fd["probe"] is None:
             present = "PROBE " + fid + " 1" in probe_out
+            pm = []
         else:
             pm, _, pout = oracle_run(exe, fd["probe"], "probe_" + fid)
-            present = any(finding_of(m) == fid for m in pm)
-        if present:
-            hit = [k for k in known if fd["key"] in k]
-            if hit:
-                rep.known(hit[0])
-            else:
-                rep.cov.setdefault("findings_without_known_line", []).append(fd["text"])
-                print("NOTE property=C18 confirmed finding on the real library (no matching `known:` line in "
-                      "KNOWN_FINDINGS.txt, therefore not gating): " + fd["text"])
+            present = any(finding_of(m) == fid for m in pm) if fid != "fmt16_decimal_digits" else bool(pm)
+        rep.cov.setdefault("finding_probes", {})[fid] = "present" if present else "absent"
+        if not present:
+            continue
+        if fid in KNOWN_KEYS:
+            rep.known([k for k in known if fd["key"] in k][0])
         else:
-            rep.cov.setdefault("findings_no_longer_present", []).append(fid)
+            rep.violation(dict(property=CID, what_broke="confirmed deviation present on the real library and not listed as known: " + fd["text"],
+                               ops=fd["probe"] or ["build/harness/C18_bvs probe"],
+                               mismatches=pm[:3], probe_output=probe_out.strip().splitlines()[-1:] if fd["probe"] is None else None),
+                          tag=fid)
 
     # ---- search mode ----
     if not res["ok"] or tie_broken:
